@@ -74,6 +74,66 @@ example :
         ["framer", "me", "actor", "me", "n"]).toOption = some ["framer", "ha_c1", "actor", "ck", "io", "n"] := by
   decide +kernel
 
+/-- **`of framer main` is the clone's own main framer.**  A reference relative to the main framer (`… of framer main`,
+`… of frame main`, `framer.main.…`) resolves to a path whose second segment is the name of the framer that owns the
+clone's main frame — the first entry of the main chain, at every nesting depth — not the outermost framer of the chain. -/
+theorem C12_main_relative_path_has_main_name (c : Ctx) (inode : Option (List String)) (rest r : List String)
+    (h : resolveParts c inode ("framer" :: "main" :: rest) = .ok r) :
+    ∃ m ms t, c.mains = m :: ms ∧ r = "framer" :: m.framerName :: t := by
+  have hr : resolveParts c inode ("framer" :: "main" :: rest)
+      = if incompletePath ("framer" :: "main" :: rest) then .error .incomplete else substFramer c ("main" :: rest) := by
+    unfold resolveParts prepend
+    have h1 : addInode (framerParts c) (overParts c) inode ("framer" :: "main" :: rest) = "framer" :: "main" :: rest := by
+      unfold addInode
+      cases inode <;> simp
+    simp [h1, addCtx, absOrFramer]
+  rw [hr] at h
+  split at h
+  · cases h
+  unfold substFramer at h
+  cases hm : c.mains with
+  | nil => simp [substFramerName, hm, bind, Except.bind] at h
+  | cons m ms =>
+    refine ⟨m, ms, ?_⟩
+    simp only [substFramerName, hm, bind, Except.bind, pure, Except.pure] at h
+    simp at h
+    cases rest with
+    | nil => simp at h; exact ⟨[], rfl, h.symm⟩
+    | cons p2 rest3 =>
+      simp only [] at h
+      split at h
+      · cases rest3 with
+        | nil => simp at h
+        | cons p3 rest4 =>
+          simp only [] at h
+          cases hq : substFrameName c p3 with
+          | error e => simp [hq] at h
+          | ok q3 =>
+            simp only [hq] at h
+            cases rest4 with
+            | nil => simp at h; exact ⟨_, rfl, h.symm⟩
+            | cons p4 rest5 =>
+              simp only [] at h
+              split at h
+              · cases hs : substActor c rest5 with
+                | error e => simp [hs] at h
+                | ok tl => simp [hs] at h; exact ⟨_, rfl, h.symm⟩
+              · simp at h; exact ⟨_, rfl, h.symm⟩
+      · split at h
+        · cases hs : substActor c rest3 with
+          | error e => simp [hs] at h
+          | ok tl => simp [hs] at h; exact ⟨_, rfl, h.symm⟩
+        · simp at h; exact ⟨_, rfl, h.symm⟩
+
+def exNested : Ctx :=
+  { frames := [{ name := "c0", inode := [] }], framerName := "ha_c1_n1", framerInode := [],
+    mains := [{ chain := [{ name := "b0", inode := [] }], framerName := "ha_c1", framerInode := [] },
+              { chain := [{ name := "f0", inode := [] }], framerName := "ha", framerInode := [] }],
+    actor := none }
+
+example : (resolveParts exNested none ["framer", "main", "frame", "main", "mf"]).toOption
+    = some ["framer", "ha_c1", "frame", "b0", "mf"] := by decide +kernel
+
 /-! ## what a clone is -/
 
 /-- **Frame.clone copies the whole script of a frame**: name, inode, over / next / under names, auxiliary links
@@ -319,6 +379,51 @@ theorem C12_freed_name_reusable (s : St) (orig : Fr) (name tag : String)
   unfold cloneFramer
   simp [hfree, hn, ho.1, ho.2]
 
+/-! ## every house has its own names -/
+
+/-- **Switching houses changes no registry.**  `House.assignRegistries` only moves the class-level pointer
+`Framer.Names`: the tasker registry of every house is what it was, and the pointer is at the house asked for. -/
+theorem C12_assign_registries_keeps_registries (s : St) (h h' : String) :
+    (assignRegistries h s).regOf h' = s.regOf h' ∧ (assignRegistries h s).cur = h := by
+  unfold assignRegistries
+  by_cases hc : s.cur = h
+  · rw [if_pos hc]; exact ⟨rfl, hc⟩
+  · rw [if_neg hc]
+    refine ⟨?_, rfl⟩
+    unfold St.regOf
+    simp only
+    by_cases e1 : h = h'
+    · subst e1; simp [hc]
+    · simp only [e1, if_false]
+      by_cases e2 : s.cur = h'
+      · subst e2
+        simp [lookup_assign_self]
+      · have : h' ≠ s.cur := fun e => e2 e.symm
+        simp [e2, lookup_assign_other _ _ _ _ this]
+
+/-- **A razed clone's name is freed in its own house**, wherever the class-level registry pointer stood (another house
+of the same skedder may have cloned in between): after `Framer.prune` the registry of the pruned framer's house does not
+map its name to it. -/
+theorem C12_pruned_name_freed_in_own_house (lo : Ops) (u : Nat) (s s' : St) (me : Fr) (hme : s.get? u = some me)
+    (h : prune lo u s = .ok s') : lookup (s'.regOf me.house) me.name ≠ some me.uid ∧ s'.cur = me.house := by
+  unfold prune at h
+  simp only [St.fr, hme] at h
+  split at h
+  · cases h
+  · split at h
+    · cases h
+    · rename_i s2 _
+      injection h with h
+      subst h
+      have hcur : (unregister (assignRegistries me.house s2) me).cur = me.house := by
+        have : (unregister (assignRegistries me.house s2) me).cur = (assignRegistries me.house s2).cur := by
+          unfold unregister; split <;> rfl
+        rw [this]; exact (C12_assign_registries_keeps_registries s2 me.house me.house).2
+      refine ⟨?_, hcur⟩
+      unfold St.regOf
+      rw [if_pos hcur]
+      exact (C12_unregister_frees_name _ me).1
+
 /-! ## a clone runs like its original -/
 
 /-- the calls a main frame makes into an auxiliary framer (`Frame.enter`, `Frame.recur`, `Frame.segueAuxes`,
@@ -343,34 +448,34 @@ def lcallEntry (P : List Frame) (first : String) : Entry → LSt → Except Err 
 clocks only) -/
 def Leafy (P : List Frame) : Prop := ∀ f ∈ P, f.leafy = true
 
-/-- `Resolves ι name`: the resolution map of a framer object named `name` — injective on references, and the two clock
+/-- `Resolves ι house name`: the resolution map of a framer object named `name` — injective on references, and the two clock
 references go to the framer's own state shares -/
-structure Resolves (ι : String → String) (name : String) : Prop where
+structure Resolves (ι : String → String) (house name : String) : Prop where
   inj : ∀ a b, ι a = ι b → a = b
-  elapsed : ι kElapsed = statePath name "elapsed"
-  recurred : ι kRecurred = statePath name "recurred"
+  elapsed : ι kElapsed = statePath house name "elapsed"
+  recurred : ι kRecurred = statePath house name "recurred"
 
 /-- **Refinement.**  A framer object without auxiliaries whose resolved script is the script `P` with every reference
 `r` replaced by its resolved share `ι r` behaves, inside any house and under any entry point, exactly as the
 stand-alone interpreter of `P` on the private memory `k ↦ store[ι k]`: same error or same next control state, same
 memory, and the events it emits are the stand-alone events labelled with its name.  Nothing else about the object
 (name, identity, tag, inode, main frame, the other objects of the house, the other shares) enters. -/
-theorem C12_leaf_refines_partial (lo : Ops) (ι : String → String) (name : String) (P : List Frame) (first : String)
-    (u : Nat) (base : List String) (s0 : St) (hι : Resolves ι name) (hP : Leafy P) (e : Entry) (s : St) (l : LSt)
-    (h : Sim ι name P first u base s0 s l) :
-    CorrSt (Sim ι name P first u base s0) (callEntry lo u e s) (lcallEntry P first e l) := by
+theorem C12_leaf_refines_partial (lo : Ops) (ι : String → String) (house name : String) (P : List Frame) (first : String)
+    (u : Nat) (base : List String) (s0 : St) (hι : Resolves ι house name) (hP : Leafy P) (e : Entry) (s : St) (l : LSt)
+    (h : Sim ι house name P first u base s0 s l) :
+    CorrSt (Sim ι house name P first u base s0) (callEntry lo u e s) (lcallEntry P first e l) := by
   cases e with
-  | enterAll => exact sim_enterAll lo ι name P first u base s0 hι.inj hP hι.elapsed hι.recurred s l h
-  | recur => exact sim_recur lo ι name P first u base s0 hι.inj hP s l h
-  | segue => exact sim_segue lo ι name P first u base s0 hι.inj hP hι.elapsed hι.recurred s l h
-  | exitAll => exact sim_exitAll lo ι name P first u base s0 hι.inj hP false s l h
+  | enterAll => exact sim_enterAll lo ι house name P first u base s0 hι.inj hP hι.elapsed hι.recurred s l h
+  | recur => exact sim_recur lo ι house name P first u base s0 hι.inj hP s l h
+  | segue => exact sim_segue lo ι house name P first u base s0 hι.inj hP hι.elapsed hι.recurred s l h
+  | exitAll => exact sim_exitAll lo ι house name P first u base s0 hι.inj hP false s l h
 
 /-- … and `Framer.checkStart` gives the same answer -/
-theorem C12_leaf_refines_checkStart_partial (lo : Ops) (ι : String → String) (name : String) (P : List Frame)
+theorem C12_leaf_refines_checkStart_partial (lo : Ops) (ι : String → String) (house name : String) (P : List Frame)
     (first : String) (u : Nat) (base : List String) (s0 : St) (hP : Leafy P) (claimed : List Nat) (s : St) (l : LSt)
-    (h : Sim ι name P first u base s0 s l) :
+    (h : Sim ι house name P first u base s0 s l) :
     checkStart lo u claimed s = (lcheckStart P first).map (fun b => (b, claimed)) :=
-  sim_checkStart lo ι name P first u base s0 hP claimed s l h
+  sim_checkStart lo ι house name P first u base s0 hP claimed s l h
 
 /-- **A clone runs like its original.**  Two framer objects — a clone and the original run as an ordinary auxiliary,
 or two clones — in two houses (or in one), with different names, identities and resolution maps, whose resolved
@@ -380,16 +485,16 @@ the same entry point either fails in both with the same error, or succeeds in bo
 one common situation `l'`.  In particular (`Sim.out`) they have emitted the same sequence of (frame, context, tag)
 events, each under its own name, and their relative shares hold the same values. -/
 theorem C12_clone_runs_like_original_partial
-    (lo1 lo2 : Ops) (ι1 ι2 : String → String) (name1 name2 : String) (P : List Frame) (first : String)
-    (u1 u2 : Nat) (base1 base2 : List String) (s01 s02 : St) (h1ι : Resolves ι1 name1) (h2ι : Resolves ι2 name2) (hP : Leafy P)
+    (lo1 lo2 : Ops) (ι1 ι2 : String → String) (house1 house2 name1 name2 : String) (P : List Frame) (first : String)
+    (u1 u2 : Nat) (base1 base2 : List String) (s01 s02 : St) (h1ι : Resolves ι1 house1 name1) (h2ι : Resolves ι2 house2 name2) (hP : Leafy P)
     (e : Entry) (s1 s2 : St) (l : LSt)
-    (h1 : Sim ι1 name1 P first u1 base1 s01 s1 l) (h2 : Sim ι2 name2 P first u2 base2 s02 s2 l) :
+    (h1 : Sim ι1 house1 name1 P first u1 base1 s01 s1 l) (h2 : Sim ι2 house2 name2 P first u2 base2 s02 s2 l) :
     match callEntry lo1 u1 e s1, callEntry lo2 u2 e s2 with
-    | .ok s1', .ok s2' => ∃ l', Sim ι1 name1 P first u1 base1 s01 s1' l' ∧ Sim ι2 name2 P first u2 base2 s02 s2' l'
+    | .ok s1', .ok s2' => ∃ l', Sim ι1 house1 name1 P first u1 base1 s01 s1' l' ∧ Sim ι2 house2 name2 P first u2 base2 s02 s2' l'
     | .error e1, .error e2 => e1 = e2
     | _, _ => False := by
-  have c1 := C12_leaf_refines_partial lo1 ι1 name1 P first u1 base1 s01 h1ι hP e s1 l h1
-  have c2 := C12_leaf_refines_partial lo2 ι2 name2 P first u2 base2 s02 h2ι hP e s2 l h2
+  have c1 := C12_leaf_refines_partial lo1 ι1 house1 name1 P first u1 base1 s01 h1ι hP e s1 l h1
+  have c2 := C12_leaf_refines_partial lo2 ι2 house2 name2 P first u2 base2 s02 h2ι hP e s2 l h2
   cases r : lcallEntry P first e l with
   | error er =>
     rw [r] at c1 c2
@@ -413,9 +518,9 @@ theorem C12_clone_runs_like_original_partial
         exact ⟨l', c1, c2⟩
 
 /-- the events two such objects have emitted since they were in a common situation are equal up to the name -/
-theorem C12_same_events (ι1 ι2 : String → String) (name1 name2 : String) (P : List Frame) (first : String)
+theorem C12_same_events (ι1 ι2 : String → String) (house1 house2 name1 name2 : String) (P : List Frame) (first : String)
     (u1 u2 : Nat) (base1 base2 : List String) (s01 s02 s1 s2 : St) (l : LSt)
-    (h1 : Sim ι1 name1 P first u1 base1 s01 s1 l) (h2 : Sim ι2 name2 P first u2 base2 s02 s2 l) :
+    (h1 : Sim ι1 house1 name1 P first u1 base1 s01 s1 l) (h2 : Sim ι2 house2 name2 P first u2 base2 s02 s2 l) :
     ∃ evs : List (String × Ctxt × String), s1.out = evs.map (render name1) ++ base1 ∧ s2.out = evs.map (render name2) ++ base2 ∧
       (∀ k, s1.read (ι1 k) = s2.read (ι2 k)) :=
   ⟨l.ev, h1.out, h2.out, fun k => (h1.mem k).trans (h2.mem k).symm⟩
@@ -424,31 +529,32 @@ theorem C12_same_events (ι1 ι2 : String → String) (name1 name2 : String) (P 
 change, objects are made and razed, time advances — as long as the object itself and the shares its references
 resolve to are left alone, the object is in the same situation as before at the new time (events counted from the new
 output on).  So two such objects that see the same times stay in one common situation over a whole run. -/
-theorem C12_situation_stable (ι : String → String) (name : String) (P : List Frame) (first : String) (u : Nat)
+theorem C12_situation_stable (ι : String → String) (house name : String) (P : List Frame) (first : String) (u : Nat)
     (base : List String) (s0 s s' : St) (l : LSt)
-    (h : Sim ι name P first u base s0 s l)
+    (h : Sim ι house name P first u base s0 s l)
     (hobj : s'.get? u = s.get? u) (hmem : ∀ k, s'.read (ι k) = s.read (ι k)) :
-    Sim ι name P first u s'.out s' s' { l with now := s'.now, ev := [] } :=
+    Sim ι house name P first u s'.out s' s' { l with now := s'.now, ev := [] } :=
   { obj := by rw [hobj]; exact h.obj
     mem := fun k => (hmem k).trans (h.mem k)
     now := rfl
     out := by simp
-    rest := Rest.refl ι u s' }
+    rest := Rest.refl ι u s'
+    hs := fun o ho => h.hs o (hobj ▸ ho) }
 
 /-- **A framer object without auxiliaries touches nothing but itself.**  While it runs (any number of entry points
 from the situation `s0`), every other framer object, the name registry, the worklists, every field of its own object
 other than the control state, and every share its references do not resolve to stay as they were in `s0`. -/
-theorem C12_leaf_touches_only_itself (ι : String → String) (name : String) (P : List Frame) (first : String) (u : Nat)
-    (base : List String) (s0 s : St) (l : LSt) (h : Sim ι name P first u base s0 s l) :
+theorem C12_leaf_touches_only_itself (ι : String → String) (house name : String) (P : List Frame) (first : String) (u : Nat)
+    (base : List String) (s0 s : St) (l : LSt) (h : Sim ι house name P first u base s0 s l) :
     (∀ v, v ≠ u → s.get? v = s0.get? v) ∧ s.names = s0.names ∧ s.nextUid = s0.nextUid ∧
     (∀ p, (∀ k, ι k ≠ p) → s.read p = s0.read p) ∧
     (∀ o, s.get? u = some o → ∃ o0, s0.get? u = some o0 ∧ o = { o0 with ctl := o.ctl }) :=
   ⟨h.rest.others, h.rest.names, h.rest.nextUid, h.rest.shares, h.rest.self⟩
 
 /-- the resolution map of name-relative references: `framer.<name>.` in front -/
-def prefixMap (name : String) (k : String) : String := "framer." ++ name ++ "." ++ k
+def prefixMap (house name : String) (k : String) : String := house ++ "/framer." ++ name ++ "." ++ k
 
-theorem C12_prefix_map_resolves (name : String) : Resolves (prefixMap name) name := by
+theorem C12_prefix_map_resolves (house name : String) : Resolves (prefixMap house name) house name := by
   refine ⟨?_, ?_, ?_⟩
   · intro a b h
     unfold prefixMap at h
@@ -473,17 +579,19 @@ def exP : List Frame :=
 example : ∀ f ∈ exP, f.leafy = true := by decide
 
 def exHouse (name : String) (uid : Nat) : St :=
-  { objs := [{ uid := uid, name := name, tag := "c1", sched := .aux, original := false, inode := "", first := "a0",
-               frames := exP.map (Frame.mapRef (prefixMap name)) }],
-    now := 3 }
+  { objs := [{ uid := uid, house := "verif", name := name, tag := "c1", sched := .aux, original := false, inode := "",
+               first := "a0", frames := exP.map (Frame.mapRef (prefixMap "verif" name)) }],
+    cur := "verif", houses := ["verif"], now := 3 }
 
-example : Sim (prefixMap "ha_c1") "ha_c1" exP "a0" 7 [] (exHouse "ha_c1" 7) (exHouse "ha_c1" 7)
+example : Sim (prefixMap "verif" "ha_c1") "verif" "ha_c1" exP "a0" 7 [] (exHouse "ha_c1" 7) (exHouse "ha_c1" 7)
     { ctl := {}, mem := fun _ => none, now := 3 } :=
-  { obj := ⟨_, rfl, rfl, rfl, rfl, rfl⟩, mem := fun _ => rfl, now := rfl, out := rfl, rest := Rest.refl _ _ _ }
+  { obj := ⟨_, rfl, rfl, rfl, rfl, rfl⟩, mem := fun _ => rfl, now := rfl, out := rfl, rest := Rest.refl _ _ _,
+    hs := fun o ho => by injection ho with ho; rw [← ho] }
 
-example : Sim (prefixMap "qma") "qma" exP "a0" 2 [] (exHouse "qma" 2) (exHouse "qma" 2)
+example : Sim (prefixMap "verif" "qma") "verif" "qma" exP "a0" 2 [] (exHouse "qma" 2) (exHouse "qma" 2)
     { ctl := {}, mem := fun _ => none, now := 3 } :=
-  { obj := ⟨_, rfl, rfl, rfl, rfl, rfl⟩, mem := fun _ => rfl, now := rfl, out := rfl, rest := Rest.refl _ _ _ }
+  { obj := ⟨_, rfl, rfl, rfl, rfl, rfl⟩, mem := fun _ => rfl, now := rfl, out := rfl, rest := Rest.refl _ _ _,
+    hs := fun o ho => by injection ho with ho; rw [← ho] }
 
 /-! ### whole histories -/
 
@@ -507,10 +615,10 @@ def lrunSteps (P : List Frame) (first : String) : List Step → LSt → Except E
   | .tick t :: rest, l => lrunSteps P first rest { l with now := t }
 
 /-- the refinement over any history of calls and clock ticks -/
-theorem C12_leaf_history_refines_partial (lo : Ops) (ι : String → String) (name : String) (P : List Frame)
-    (first : String) (u : Nat) (base : List String) (hι : Resolves ι name) (hP : Leafy P) (steps : List Step) :
-    ∀ (s0 s : St) (l : LSt), Sim ι name P first u base s0 s l →
-      CorrSt (fun s' l' => ∃ s0', Sim ι name P first u base s0' s' l') (runSteps lo u steps s) (lrunSteps P first steps l) := by
+theorem C12_leaf_history_refines_partial (lo : Ops) (ι : String → String) (house name : String) (P : List Frame)
+    (first : String) (u : Nat) (base : List String) (hι : Resolves ι house name) (hP : Leafy P) (steps : List Step) :
+    ∀ (s0 s : St) (l : LSt), Sim ι house name P first u base s0 s l →
+      CorrSt (fun s' l' => ∃ s0', Sim ι house name P first u base s0' s' l') (runSteps lo u steps s) (lrunSteps P first steps l) := by
   induction steps with
   | nil => intro s0 s l h; exact ⟨s0, h⟩
   | cons st rest ih =>
@@ -518,7 +626,7 @@ theorem C12_leaf_history_refines_partial (lo : Ops) (ι : String → String) (na
     cases st with
     | call e =>
       simp only [runSteps, lrunSteps]
-      have c := C12_leaf_refines_partial lo ι name P first u base s0 hι hP e s l h
+      have c := C12_leaf_refines_partial lo ι house name P first u base s0 hι hP e s l h
       cases r : callEntry lo u e s with
       | error er =>
         cases r' : lcallEntry P first e l with
@@ -531,7 +639,7 @@ theorem C12_leaf_history_refines_partial (lo : Ops) (ι : String → String) (na
     | tick t =>
       simp only [runSteps, lrunSteps]
       exact ih { s with now := t } { s with now := t } { l with now := t }
-        { obj := h.obj, mem := h.mem, now := rfl, out := h.out, rest := Rest.refl ι u _ }
+        { obj := h.obj, mem := h.mem, now := rfl, out := h.out, rest := Rest.refl ι u _, hs := h.hs }
 
 /-- **A clone runs like its original over a whole history.**  Two framer objects without auxiliaries with the same
 leaf script (seen through their own resolution maps), started in a common situation and given the same history of
@@ -539,10 +647,10 @@ calls and clock ticks — in two different houses or in one — either both fail
 end in a common situation: same control state, same values of all relative shares, and the same events emitted since
 the start, each under its own name. -/
 theorem C12_clone_history_like_original_partial
-    (lo1 lo2 : Ops) (ι1 ι2 : String → String) (name1 name2 : String) (P : List Frame) (first : String)
-    (u1 u2 : Nat) (base1 base2 : List String) (s01 s02 : St) (h1ι : Resolves ι1 name1) (h2ι : Resolves ι2 name2)
+    (lo1 lo2 : Ops) (ι1 ι2 : String → String) (house1 house2 name1 name2 : String) (P : List Frame) (first : String)
+    (u1 u2 : Nat) (base1 base2 : List String) (s01 s02 : St) (h1ι : Resolves ι1 house1 name1) (h2ι : Resolves ι2 house2 name2)
     (hP : Leafy P) (steps : List Step) (s1 s2 : St) (l : LSt)
-    (h1 : Sim ι1 name1 P first u1 base1 s01 s1 l) (h2 : Sim ι2 name2 P first u2 base2 s02 s2 l) :
+    (h1 : Sim ι1 house1 name1 P first u1 base1 s01 s1 l) (h2 : Sim ι2 house2 name2 P first u2 base2 s02 s2 l) :
     match runSteps lo1 u1 steps s1, runSteps lo2 u2 steps s2 with
     | .ok s1', .ok s2' => ∃ (evs : List (String × Ctxt × String)),
         s1'.out = evs.map (render name1) ++ base1 ∧ s2'.out = evs.map (render name2) ++ base2 ∧
@@ -550,8 +658,8 @@ theorem C12_clone_history_like_original_partial
         (∀ o1 o2, s1'.get? u1 = some o1 → s2'.get? u2 = some o2 → o1.ctl = o2.ctl)
     | .error e1, .error e2 => e1 = e2
     | _, _ => False := by
-  have c1 := C12_leaf_history_refines_partial lo1 ι1 name1 P first u1 base1 h1ι hP steps s01 s1 l h1
-  have c2 := C12_leaf_history_refines_partial lo2 ι2 name2 P first u2 base2 h2ι hP steps s02 s2 l h2
+  have c1 := C12_leaf_history_refines_partial lo1 ι1 house1 name1 P first u1 base1 h1ι hP steps s01 s1 l h1
+  have c2 := C12_leaf_history_refines_partial lo2 ι2 house2 name2 P first u2 base2 h2ι hP steps s02 s2 l h2
   cases r : lrunSteps P first steps l with
   | error er =>
     rw [r] at c1 c2
@@ -588,13 +696,13 @@ disjoint sets of shares (as those of framers with different names do: `C12_disti
 point runs the first, the second is afterwards in exactly the situation it was in (same control state, same values
 of all its shares, same clock).  So each clone runs as if the other were not there. -/
 theorem C12_leaf_clones_do_not_interfere (lo : Ops)
-    (ι1 ι2 : String → String) (name1 name2 : String) (P1 P2 : List Frame) (first1 first2 : String) (u1 u2 : Nat)
-    (base1 base2 : List String) (s02 : St) (h1ι : Resolves ι1 name1) (hP1 : Leafy P1)
+    (ι1 ι2 : String → String) (house1 house2 name1 name2 : String) (P1 P2 : List Frame) (first1 first2 : String) (u1 u2 : Nat)
+    (base1 base2 : List String) (s02 : St) (h1ι : Resolves ι1 house1 name1) (hP1 : Leafy P1)
     (hdisj : ∀ k k', ι1 k ≠ ι2 k') (hne : u2 ≠ u1) (e : Entry) (s s' : St) (l1 l2 : LSt)
-    (h1 : Sim ι1 name1 P1 first1 u1 base1 s s l1) (h2 : Sim ι2 name2 P2 first2 u2 base2 s02 s l2)
+    (h1 : Sim ι1 house1 name1 P1 first1 u1 base1 s s l1) (h2 : Sim ι2 house2 name2 P2 first2 u2 base2 s02 s l2)
     (hc : callEntry lo u1 e s = .ok s') :
-    Sim ι2 name2 P2 first2 u2 s'.out s' s' { l2 with ev := [] } := by
-  have c1 := C12_leaf_refines_partial lo ι1 name1 P1 first1 u1 base1 s h1ι hP1 e s l1 h1
+    Sim ι2 house2 name2 P2 first2 u2 s'.out s' s' { l2 with ev := [] } := by
+  have c1 := C12_leaf_refines_partial lo ι1 house1 name1 P1 first1 u1 base1 s h1ι hP1 e s l1 h1
   rw [hc] at c1
   cases r : lcallEntry P1 first1 e l1 with
   | error er => rw [r] at c1; exact c1.elim
@@ -602,7 +710,7 @@ theorem C12_leaf_clones_do_not_interfere (lo : Ops)
     rw [r] at c1
     have hobj : s'.get? u2 = s.get? u2 := c1.rest.others u2 hne
     have hmem : ∀ k, s'.read (ι2 k) = s.read (ι2 k) := fun k => c1.rest.shares (ι2 k) (fun k' => hdisj k' k)
-    have hst := C12_situation_stable ι2 name2 P2 first2 u2 base2 s02 s s' l2 h2 hobj hmem
+    have hst := C12_situation_stable ι2 house2 name2 P2 first2 u2 base2 s02 s s' l2 h2 hobj hmem
     have hnow : s'.now = l2.now := by rw [c1.rest.now]; exact h2.now
     rw [hnow] at hst
     exact hst
@@ -622,8 +730,8 @@ theorem append_sep_inj {α : Type} (c : α) : ∀ (l1 l2 r1 r2 : List α), c ∉
     rw [h.1, this]
 
 /-- framers with different (dot-free) names resolve their relative references to disjoint sets of shares -/
-theorem C12_distinct_names_disjoint (n1 n2 : String) (hn : n1 ≠ n2) (h1 : '.' ∉ n1.toList) (h2 : '.' ∉ n2.toList)
-    (k k' : String) : prefixMap n1 k ≠ prefixMap n2 k' := by
+theorem C12_distinct_names_disjoint (house n1 n2 : String) (hn : n1 ≠ n2) (h1 : '.' ∉ n1.toList) (h2 : '.' ∉ n2.toList)
+    (k k' : String) : prefixMap house n1 k ≠ prefixMap house n2 k' := by
   intro e
   unfold prefixMap at e
   simp only [String.append_assoc] at e
@@ -635,8 +743,8 @@ theorem C12_distinct_names_disjoint (n1 n2 : String) (hn : n1 ≠ n2) (h1 : '.' 
   have := append_sep_inj '.' n1.toList n2.toList k.toList k'.toList h1 h2 (by simpa using e2)
   exact hn (String.toList_inj.mp this)
 
-example : ∀ k k', prefixMap "ha_c1" k ≠ prefixMap "ha_c2" k' :=
-  C12_distinct_names_disjoint "ha_c1" "ha_c2" (by decide) (by decide) (by decide)
+example : ∀ k k', prefixMap "verif" "ha_c1" k ≠ prefixMap "verif" "ha_c2" k' :=
+  C12_distinct_names_disjoint "verif" "ha_c1" "ha_c2" (by decide) (by decide) (by decide)
 
 /-! ## razing clones that have no auxiliaries below them: the exact effect -/
 
@@ -664,17 +772,18 @@ theorem C12_raze_leaf_clones_partial (lo' : Ops) (u : Nat) (who : Who) (F : Stri
     (∀ n x, lookup s'.names n = some x → lookup s.names n = some x) :=
   raze_leaf lo' u who F s s' f hf hnd hl h
 
-/-- pruning such a clone: exit if entered (through the stand-alone `lexitAll`), then unregister; nothing else -/
-theorem C12_prune_leaf_clone_partial (lo : Ops) (ι : String → String) (name : String) (P : List Frame) (first : String)
+/-- pruning such a clone: exit if entered (through the stand-alone `lexitAll`), then unregister in the clone's own
+house (`assignRegistries`, fix D47a); nothing else -/
+theorem C12_prune_leaf_clone_partial (lo : Ops) (ι : String → String) (house name : String) (P : List Frame) (first : String)
     (u : Nat) (base : List String) (hinj : ∀ a b, ι a = ι b → a = b) (hP : Leafy P)
-    (s : St) (l : LSt) (h : Sim ι name P first u base s s l) (s' : St) (hp : prune lo u s = .ok s') :
-    ∃ s1 l1 me, s.get? u = some me ∧ Sim ι name P first u base s s1 l1 ∧ s' = unregister s1 me ∧
-      l1.ctl.active = none ∧
+    (s : St) (l : LSt) (h : Sim ι house name P first u base s s l) (s' : St) (hp : prune lo u s = .ok s') :
+    ∃ s1 l1 me, s.get? u = some me ∧ Sim ι house name P first u base s s1 l1 ∧
+      s' = unregister (assignRegistries me.house s1) me ∧ l1.ctl.active = none ∧
       (l.ctl.active.isSome = true → lexitAll P false l = .ok l1) ∧ (l.ctl.active.isSome = false → s1 = s ∧ l1 = l) :=
-  prune_leaf lo ι name P first u base hinj hP s l h s' hp
+  prune_leaf lo ι house name P first u base hinj hP s l h s' hp
 
 example : LeafObj (exHouse "ha_ma1" 4) 4 :=
-  ⟨_, prefixMap "ha_ma1", exP, rfl, rfl, by decide, (C12_prefix_map_resolves "ha_ma1").inj⟩
+  ⟨_, prefixMap "verif" "ha_ma1", exP, rfl, rfl, by decide, (C12_prefix_map_resolves "verif" "ha_ma1").inj, rfl⟩
 
 /-! ## rear -/
 
@@ -725,14 +834,15 @@ theorem C12_static_clone_created (u : Nat) (s s' : St) (tag : String) (d : Moot)
 /-! non-vacuity: a concrete host `ha` (frames `f0`, `f1`) rears the concrete moot `ma` into `f1` -/
 
 def exRearHouse : St :=
-  { objs := [{ uid := 0, name := "ha", tag := "ha", sched := .active, inode := "", first := "f0", presolved := true,
+  { objs := [{ uid := 0, house := "verif", name := "ha", tag := "ha", sched := .active, inode := "", first := "f0", presolved := true,
                resolved := true,
                frames := [{ name := "f0", inode := "", over := none, next := some "f1", outline := ["f0"], links := [],
                             items := [.act .enter (.rear "ma" "f1")] },
                           { name := "f1", inode := "", over := none, next := none, outline := ["f1"], links := [],
                             items := [] }] },
-             { uid := 1, name := "ma", tag := "ma", sched := .moot, inode := "", first := "a0", frames := exP }],
-    names := [("ha", 0), ("ma", 1)], nextUid := 2 }
+             { uid := 1, house := "verif", name := "ma", tag := "ma", sched := .moot, inode := "", first := "a0",
+               frames := exP }],
+    names := [("ha", 0), ("ma", 1)], cur := "verif", houses := ["verif"], nextUid := 2 }
 
 example : exRearHouse.get? exRearHouse.nextUid = none := by decide +kernel
 
